@@ -95,7 +95,7 @@ func c01exec(c *Ctx, st *c01state, op Op, rng *rand.Rand, light bool) Ev {
 	t2 := geti(op, "t2")
 	ev := Ev{"op": name, "t": t, "t2": t2, "beta": 0, "rev": false, "k": [2]int{0, 0}, "keys": [][2]int{},
 		"res": true, "len": 0, "empty": true, "height": -1, "mag": st.mag, "full": 0, "ino": [][2]int{}, "min": [2]int{0, 0},
-		"max": [2]int{0, 0}, "stop": 0, "pre": [][2]int{}, "gets": [][5]int{}, "afters": []any{}}
+		"max": [2]int{0, 0}, "stop": 0, "pre": [][2]int{}, "gets": [][5]int{}, "afters": []any{}, "others": [][3]int{}}
 	guard(ev, func() {
 		var k sk
 		if has(op, "k") {
@@ -146,6 +146,15 @@ func c01exec(c *Ctx, st *c01state, op Op, rng *rand.Rand, light bool) Ev {
 		ev["len"] = n
 		ev["empty"] = tr.IsEmpty()
 		ev["height"] = treeHeight(tr)
+		// the trees this call did not touch (an original and its clones are independent):
+		// their Len and height must still be what their own history determines
+		others := [][3]int{}
+		for id := 1; id <= len(st.trees)+1; id++ {
+			if ot, ok := st.trees[id]; ok && id != o && (!light || ot.Len() < 600) {
+				others = append(others, [3]int{id, treeHeight(ot), ot.Len()})
+			}
+		}
+		ev["others"] = others
 		// Get probes
 		var gc []int
 		if has(op, "gets") {
@@ -505,7 +514,7 @@ func c01sliceRun(h *Hist, ops []Op) {
 		}
 		h.Emit(Ev{"op": name, "t": 1, "t2": 0, "beta": beta, "rev": false, "k": k, "keys": [][2]int{}, "res": res, "len": t.Len(),
 			"empty": t.IsEmpty(), "height": -2, "mag": 1, "full": 1, "ino": ino, "min": mn, "max": mx, "stop": 0, "pre": ino,
-			"gets": gl, "afters": []any{}, "panic": pan, "keytype": "slice"})
+			"gets": gl, "afters": []any{}, "others": [][3]int{}, "panic": pan, "keytype": "slice"})
 	}
 	emit("new", [2]int{0, 0}, true, "")
 	for _, op := range ops[1:] {
